@@ -55,9 +55,62 @@ def install_registry_hooks(conv):
 
 # ------------------------------------------------------------------------------------------------ generation
 
+# mapping types by TARGET CLASS and SPELLING (C02 "exact class"): what is written in the annotation -> class of the result.
+# bare-c / bare-t: the unsubscripted class from `collections` / alias from `typing`; any-any: `X[Any, Any]`; typed: `X[K, V]`.
+# (a bare defaultdict is documented as unsupported: no default_factory to discover)
+def _tmap_table():
+    import collections
+    from typing import Any
+    C, T = collections, typing
+    return {
+        "od": (C.OrderedDict, {"bare-c": C.OrderedDict, "bare-t": T.OrderedDict, "any-any": lambda k, v: C.OrderedDict[Any, Any],
+                               "any-any-t": lambda k, v: T.OrderedDict[Any, Any], "typed": lambda k, v: C.OrderedDict[k, v],
+                               "typed-t": lambda k, v: T.OrderedDict[k, v]}),
+        "dd": (C.defaultdict, {"any-any": lambda k, v: C.defaultdict[Any, Any], "any-any-t": lambda k, v: T.DefaultDict[Any, Any],
+                               "typed": lambda k, v: C.defaultdict[k, v], "typed-t": lambda k, v: T.DefaultDict[k, v]}),
+        "ctr": (C.Counter, {"bare-c": C.Counter, "bare-t": T.Counter, "typed": lambda k, v: C.Counter[k],
+                            "typed-t": lambda k, v: T.Counter[k]}),
+        "dict": (dict, {"bare-c": dict, "bare-t": T.Dict, "any-any": lambda k, v: dict[Any, Any], "typed": lambda k, v: dict[k, v]}),
+        "map": (dict, {"bare-t": T.Mapping, "any-any-t": lambda k, v: T.Mapping[Any, Any], "typed-t": lambda k, v: T.Mapping[k, v]}),
+        "mmap": (dict, {"bare-t": T.MutableMapping, "any-any-t": lambda k, v: T.MutableMapping[Any, Any],
+                        "typed-t": lambda k, v: T.MutableMapping[k, v]}),
+    }
+
+
 class ExtGen:
-    def __init__(self, rng):
+    def __init__(self, rng, tmaps=False, tds=False):
         self.rng = rng
+        self.tmaps = tmaps      # mapping types by target class x spelling: ("tmap", class tag, spelling, K, V)
+        self.tds = tds          # TypedDict holders ("td", K): key `x` Required / NotRequired / under total=False
+
+    def td_holder(self, inner):
+        from typing import NotRequired, Required, TypedDict
+        r = self.rng
+        style = r.choice(["required", "notrequired", "total-false", "total-false-required-n"])
+        T = self.py_ty(inner)
+        name = f"XT{next(_uid)}"
+        if style == "required":
+            cl = TypedDict(name, {"x": T, "n": int})
+        elif style == "notrequired":
+            cl = TypedDict(name, {"x": NotRequired[T], "n": int})
+        elif style == "total-false":
+            cl = TypedDict(name, {"x": T, "n": int}, total=False)
+        else:
+            cl = TypedDict(name, {"x": T, "n": Required[int]}, total=False)
+        cl._ext_fields = [("x", inner), ("n", "int")]
+        cl._ext_required = {"required": {"x", "n"}, "notrequired": {"n"}, "total-false": set(), "total-false-required-n": {"n"}}[style]
+        return cl
+
+    def make_tmap(self):
+        r = self.rng
+        tab = _tmap_table()
+        tag = r.choice(["od", "od", "dd", "ctr", "ctr", "dict", "map", "mmap"])
+        sp = r.choice(sorted(tab[tag][1]))
+        typed = sp.startswith("typed")
+        kt = r.choice(["str", "int"]) if typed else "any"
+        vt = ("int" if tag == "ctr" else r.choice(["int", "str", "bool", ("list", "int")] if tag == "dd" else
+                                                  ["int", "str", "bool", ("list", "int"), ("opt", "int")])) if typed else "any"
+        return ("tmap", tag, sp, kt, vt)
 
     def leaf_ty(self):
         return self.rng.choice(["int", "str", "bool"])
@@ -126,8 +179,11 @@ class ExtGen:
 
     def py_ty(self, t):
         if isinstance(t, str):
-            return {"int": int, "str": str, "bool": bool}[t]
+            return {"int": int, "str": str, "bool": bool, "any": typing.Any}[t]
         k = t[0]
+        if k == "tmap":
+            sp = _tmap_table()[t[1]][1][t[2]]
+            return sp(self.py_ty(t[3]), self.py_ty(t[4])) if t[2].split("-")[0] in ("any", "typed") else sp
         if k == "lit":
             return Literal[tuple(t[1])]
         if k == "list":
@@ -138,7 +194,7 @@ class ExtGen:
             return dict[self.py_ty(t[1]), self.py_ty(t[2])]
         if k == "opt":
             return Optional[self.py_ty(t[1])]
-        if k in ("cls", "nt"):
+        if k in ("cls", "nt", "td"):
             return t[1]
         if k == "union":
             return Union[tuple(t[1])]
@@ -149,12 +205,19 @@ class ExtGen:
     def value(self, t, depth=2):
         r = self.rng
         if isinstance(t, str):
+            if t == "any":
+                t = r.choice(["int", "str"])
             return {"int": lambda: r.randint(-5, 40), "str": lambda: r.choice(["", "a", "zz", "7"]),
                     "bool": lambda: r.random() < 0.5}[t]()
         k = t[0]
         if k == "lit":
             return r.choice(t[1])
         n = r.randint(0, 2 if depth > 0 else 0)
+        if k == "tmap":
+            import collections
+            d = {self.value(t[3], 0): (r.randint(0, 5) if t[1] == "ctr" else self.value(t[4], depth - 1)) for _ in range(n)}
+            cl = _tmap_table()[t[1]][0]
+            return collections.defaultdict(self.py_ty(t[4]), d) if t[1] == "dd" else cl(d)
         if k == "list":
             return [self.value(t[1], depth - 1) for _ in range(n)]
         if k == "tup*":
@@ -165,6 +228,8 @@ class ExtGen:
             return None if r.random() < 0.3 else self.value(t[1], depth)
         if k == "cls":
             return t[1](**{n_: self.value(ft, depth - 1) for n_, ft in t[1]._ext_fields})
+        if k == "td":
+            return {n_: self.value(ft, depth - 1) for n_, ft in t[1]._ext_fields if n_ in t[1]._ext_required or r.random() < 0.8}
         if k == "nt":
             return t[1](*[self.value(ft, depth - 1) for _, ft in t[1]._ext_fields])
         if k == "union":
@@ -185,7 +250,9 @@ class ExtGen:
         r = self.rng
         c = r.random()
         if depth <= 0 or c < 0.15:
-            base = r.choice(["union-tag", "union-uniq", "nt", "reg"])
+            base = r.choice(["union-tag", "union-uniq", "nt", "reg"] + (["tmap", "tmap", "tmap"] if self.tmaps else []))
+            if base == "tmap":
+                return self.make_tmap()
             if base == "union-tag":
                 return ("union", self.make_union_members(r.randint(2, 3), True))
             if base == "union-uniq":
@@ -202,6 +269,8 @@ class ExtGen:
         if c < 0.7:
             inner = self.type(depth - 1)
             return inner if inner[0] == "opt" else ("opt", inner)
+        if self.tds and r.random() < 0.35:
+            return ("td", self.td_holder(self.type(depth - 1)))
         return ("cls", self.holder(self.type(depth - 1), r.random() < 0.5))
 
 
@@ -230,8 +299,18 @@ def same(a, b):
 def conforms(t, v):
     """independent conformance walker for the extended types (from the property statement)"""
     if isinstance(t, str):
-        return type(v) is {"int": int, "str": str, "bool": bool}[t]
+        return t == "any" or type(v) is {"int": int, "str": str, "bool": bool}[t]
     k = t[0]
+    if k == "tmap":
+        # exactly the target class the annotation names (whatever the spelling); keys and values conforming to the
+        # arguments when there are any; a defaultdict carries the value argument as its default_factory; a Counter
+        # counts ints (judged when the annotation says so: a bare `Counter` declares nothing about its values)
+        cl = _tmap_table()[t[1]][0]
+        if type(v) is not cl:
+            return False
+        if t[1] == "dd" and v.default_factory != ExtGen(None).py_ty(t[4]):
+            return False
+        return all(conforms(t[3], a) and conforms(t[4], b) for a, b in v.items())
     if k == "lit":
         return any(type(v) is type(x) and v == x for x in t[1])
     if k == "list":
@@ -244,6 +323,9 @@ def conforms(t, v):
         return v is None or conforms(t[1], v)
     if k == "cls":
         return type(v) is t[1] and all(conforms(ft, getattr(v, n)) for n, ft in t[1]._ext_fields)
+    if k == "td":
+        return (type(v) is dict and all(n in v for n in t[1]._ext_required)
+                and all(conforms(ft, v[n]) for n, ft in t[1]._ext_fields if n in v))
     if k == "nt":
         return type(v) is t[1] and len(v) == len(t[1]._ext_fields) and all(conforms(ft, x) for (_, ft), x in zip(t[1]._ext_fields, v))
     if k == "union":
@@ -292,10 +374,48 @@ def one_shot_variants(rng, p):
     return out
 
 
+class _MissingDict(dict):
+    """a mapping whose `o[k]` manufactures a value for an absent key while `k in o` stays False"""
+
+    def __missing__(self, k):
+        return 0
+
+
+def mapping_class_variants(rng, p):
+    """factories that rebuild the payload with one of its mappings (the top one, or one nested one) as an instance of
+    another mapping class: defaultdict / a dict subclass with `__missing__` (absent keys are manufactured by `o[k]`, not
+    seen by `k in o`), OrderedDict, a read-only MappingProxyType"""
+    import collections
+    import types
+    mk = [("defaultdict", lambda d: collections.defaultdict(int, d)), ("dict-with-__missing__", lambda d: _MissingDict(d)),
+          ("OrderedDict", lambda d: collections.OrderedDict(d)), ("mappingproxy", lambda d: types.MappingProxyType(dict(d)))]
+    out = []
+    if isinstance(p, dict):
+        for name, f in mk:
+            out.append(("mapping-payload:" + name, lambda f=f: f(p)))
+        ks = [k for k, v in p.items() if isinstance(v, dict)]
+        if ks:
+            k = rng.choice(ks)
+            name, f = rng.choice(mk[:2])
+            out.append(("nested-mapping-payload:" + name, lambda f=f, k=k: {**p, k: f(p[k])}))
+    elif isinstance(p, (list, tuple)):
+        ix = [i for i, v in enumerate(p) if isinstance(v, dict)]
+        if ix:
+            i = rng.choice(ix)
+            name, f = rng.choice(mk[:2])
+            out.append(("nested-mapping-payload:" + name, lambda f=f, i=i: [f(v) if j == i else v for j, v in enumerate(p)]))
+    return out
+
+
 def describe(t):
     if isinstance(t, str):
         return t
     k = t[0]
+    if k == "tmap":
+        return f"tmap:{t[1]}:{t[2]}[{describe(t[3])}, {describe(t[4])}]"
+    if k == "td":
+        return (f"td:{t[1].__name__}(" + ", ".join(n + ("" if n in t[1]._ext_required else "?") + ": " + describe(ft)
+                                                     for n, ft in t[1]._ext_fields) + ")")
     if k in ("cls", "nt"):
         return f"{k}:{t[1].__name__}({', '.join(n + ': ' + describe(ft) for n, ft in t[1]._ext_fields)})"
     if k == "union":
@@ -346,12 +466,31 @@ def run_c01(chk, n_types):
 def run_c02(chk, n_types):
     """soundness on the extended types: accepted results conform; a present-but-invalid component of a class
     position is never replaced by the default or dropped"""
-    G = ExtGen(chk.rng)
+    G = ExtGen(chk.rng, tmaps=True, tds=True)
     rng = chk.rng
-    for _ in range(n_types):
-        t = G.type(2)
+    # every (target class, spelling) of the mapping table -- bare from `collections`, bare from `typing`, [Any, Any],
+    # [K, V] -- on its own and at two nested typed positions; then random types
+    todo = []
+    for tag, (_, sps) in sorted(_tmap_table().items()):
+        for sp in sorted(sps):
+            typed = sp.startswith("typed")
+            t0 = ("tmap", tag, sp, "str" if typed else "any", ("int" if typed else "any"))
+            wraps = [lambda t: ("list", t), lambda t: ("dict", "str", t), lambda t: ("opt", t), lambda t: ("tup*", t),
+                     lambda t: ("cls", G.holder(t, False)), lambda t: ("cls", G.holder(("list", t), False))]
+            todo += [t0] + [w(t0) for w in rng.sample(wraps, 2)]
+    for i in range(len(todo) + n_types):
+        t = todo[i] if i < len(todo) else G.type(2)
         T = G.py_ty(t)
+        tm = _TMAP_RE.findall(describe(t))
+        for sp in tm:
+            chk.note("ext-stream:mapping-target:" + sp)
         for name, conv in _converters():
+            if name.startswith("BaseConverter") and "td:" in describe(t):
+                continue    # TypedDicts are outside a BaseConverter's support (it hands the payload to `dict`)
+            if name.startswith("BaseConverter") and any(not sp.startswith(("dict", "map", "mmap")) for sp in tm):
+                # a BaseConverter builds a plain dict for every mapping type (theorem C02_baseconverter_target_witness):
+                # mapping types whose target class is not dict are outside its support
+                continue
             x = G.value(t)
             u = _try(lambda: conv.unstructure(x, unstructure_as=T))
             if u[0] != "ok":
@@ -362,6 +501,15 @@ def run_c02(chk, n_types):
                 chk.count("ext:" + name + describe(t) + repr(p), sample=None)
                 chk.note("ext-stream:structure:" + r[0])
                 case = {"ext": True, "type": describe(t), "payload": repr(p), "converter": name, "got": repr(r)[:500]}
+                if r[0] == "ok" and t[0] == "tmap" and t[1] == "ctr" and t[2].startswith("bare") and isinstance(r[1], dict) \
+                        and any(type(b) is not int for b in r[1].values()):
+                    # candidate finding (same pattern as F70: judged only once registered in known_findings.json): the bare
+                    # spelling `Counter` / `typing.Counter` leaves the VALUES unstructured (`gen_structure_counter` passes
+                    # val_type=int, the bare branch of mapping_structure_factory ignores it); `Counter[Any]` makes them ints
+                    chk.note("ext-stream:bare-Counter-values-not-structured-as-int(finding region)")
+                    if any(f.get("signature") == BARE_COUNTER_SIG for f in chk.known):
+                        chk.violation(f"C02 oracle (extended stream): structure({p!r:.120}, {describe(t)}) on {name} returned {r[1]!r:.120}: "
+                                      "a Counter whose counts are not ints", dict(case, stream="bare-counter", region=BARE_COUNTER_SIG))
                 if r[0] == "ok" and not conforms(t, r[1]):
                     chk.violation(f"C02 oracle (extended stream): structure({p!r}, {describe(t)}) on {name} returned the non-conforming {r[1]!r}", case)
                     continue
@@ -382,6 +530,18 @@ def run_c02(chk, n_types):
                                 f"the result holds {getattr(r[1], fname)!r}", case)
 
 
+BARE_COUNTER_SIG = "c02-bare-counter-values-not-structured"
+
+
+@framework.finding(BARE_COUNTER_SIG)
+def _bare_counter_pred(case) -> bool:
+    """candidate F72"""
+    return isinstance(case, dict) and case.get("stream") == "bare-counter" and case.get("region") == BARE_COUNTER_SIG
+
+
+_TMAP_RE = __import__("re").compile(r"tmap:(\w+:[\w-]+)")
+
+
 def _outcome(r):
     return ("ok", r[1]) if r[0] == "ok" else ("err",)
 
@@ -389,12 +549,16 @@ def _outcome(r):
 def run_c04(chk, n_types):
     """both validation modes accept the same inputs with equal results: extended types, one-shot iterables"""
     import cattrs
-    G = ExtGen(chk.rng)
+    G = ExtGen(chk.rng, tmaps=True, tds=True)
     rng = chk.rng
     for _ in range(n_types):
         t = G.type(2)
         T = G.py_ty(t)
+        if "td:" in describe(t):
+            chk.note("ext-stream:typeddict-holder")
         for cls in (cattrs.Converter, cattrs.BaseConverter):
+            if cls is cattrs.BaseConverter and "td:" in describe(t):
+                continue    # TypedDicts are outside a BaseConverter's support (it hands the payload to `dict`)
             cd, cf = cls(detailed_validation=True), cls(detailed_validation=False)
             install_registry_hooks(cd)
             install_registry_hooks(cf)
@@ -403,13 +567,18 @@ def run_c04(chk, n_types):
             if u[0] != "ok":
                 continue
             cases = [("valid", lambda p=u[1]: p)]
+            # (a one-shot iterable at an `Any` position is handed through as it is: two fresh payloads never compare equal)
+            one_shot = "any" not in describe(t)
             for _ in range(3):
                 m = mutate(rng, u[1])
                 cases.append(("mutated", lambda m=m: m))
-                for kind, fac in one_shot_variants(rng, m):
+                for kind, fac in one_shot_variants(rng, m) if one_shot else []:
                     cases.append((kind, fac))
-            for kind, fac in one_shot_variants(rng, u[1]):
+            for kind, fac in one_shot_variants(rng, u[1]) if one_shot else []:
                 cases.append((kind, fac))
+            # the same payloads with a mapping of another class ("all inputs": defaultdict / __missing__ / OrderedDict / proxy)
+            for q in [u[1]] + [c[1]() for c in cases[1:3] if c[0] == "mutated"]:
+                cases += mapping_class_variants(rng, q)
             for kind, fac in cases:
                 rd = _try(lambda: cd.structure(fac(), T))
                 rf = _try(lambda: cf.structure(fac(), T))
@@ -1218,3 +1387,347 @@ def run_generic_roundtrip(chk, n_cases):
                     chk.violation(f"C01 oracle (generic-class stream): round trip of {x!r} as {cl.__name__}[{arg!r}] "
                                   f"({kind}, detailed_validation={dv}) gives {res!r:.200}",
                                   {"ext": True, "stream": "generic", "arg": repr(arg), "kind": kind, "value": repr(x), "got": repr(res)[:300]})
+
+
+# ------------------------------------------------------------------------------------------------ C02: unsupported types
+# at typed positions ("unsupported types raise StructureHandlerNotFoundError"; nothing a structuring call could put at such
+# a position conforms, so the call must raise -- never pass the raw payload component through)
+
+def _unsup_table():
+    """name -> (annotation, is-a-value-of-it test, raw payload components that look plausible, a genuine instance)"""
+    import datetime
+    import decimal
+    import fractions
+    import uuid
+    U = typing.Union[int, str]
+    return {
+        "date": (datetime.date, lambda v: type(v) is datetime.date, ["2020-01-02", 737000, None], datetime.date(2020, 1, 2)),
+        "datetime": (datetime.datetime, lambda v: type(v) is datetime.datetime, ["2020-01-02T03:04:05", "yesterday-ish", 0.5],
+                     datetime.datetime(2020, 1, 2, 3, 4, 5)),
+        "decimal": (decimal.Decimal, lambda v: type(v) is decimal.Decimal, ["1.50", 7, 2.5], decimal.Decimal("1.50")),
+        "fraction": (fractions.Fraction, lambda v: type(v) is fractions.Fraction, ["1/3", 2, [1, 3]], fractions.Fraction(1, 3)),
+        "uuid": (uuid.UUID, lambda v: type(v) is uuid.UUID, ["12345678-1234-5678-1234-567812345678", 5], uuid.UUID(int=5)),
+        "plain-class": (_Money, lambda v: type(v) is _Money, ["2.25", {"cents": 225}, 42], _Money("2.25")),
+        "union-int-str": (U, lambda v: type(v) in (int, str), [None, 2.5, [1], {"a": 1}, b"x"], 3),
+        "complex": (complex, lambda v: type(v) is complex, ["1+2j", [1, 2], None], 1 + 2j),
+    }
+
+
+def _unsup_shape(rng, name, depth):
+    """-> (annotation, conformance test, raw payload, genuine value) of a type with the unsupported leaf inside"""
+    import collections
+    ann, ok, raws, inst = _unsup_table()[name]
+    if depth <= 0 or rng.random() < 0.35:
+        return ann, ok, rng.choice(raws), inst, name
+    a, ok1, raw, v, d = _unsup_shape(rng, name, depth - 1)
+    k = rng.choice(["list", "opt", "dict", "tup", "tup*", "seq", "odict"])
+    n = rng.randint(1, 2)
+    if k in ("list", "seq"):
+        return ((list if k == "list" else typing.Sequence)[a], lambda x: type(x) is list and all(ok1(e) for e in x), [raw] * n, [v],
+                f"{k}[{d}]")
+    if k == "opt":
+        return Optional[a], lambda x: x is None or ok1(x), raw, v, f"opt[{d}]"
+    if k in ("dict", "odict"):
+        cl = dict if k == "dict" else collections.OrderedDict
+        return (cl[str, a], lambda x: type(x) is cl and all(type(q) is str and ok1(e) for q, e in x.items()),
+                {f"k{i}": raw for i in range(n)}, cl({"k": v}), f"{k}[str, {d}]")
+    if k == "tup":
+        return (tuple[a, int], lambda x: type(x) is tuple and len(x) == 2 and ok1(x[0]) and type(x[1]) is int, [raw, 3], (v, 3),
+                f"tuple[{d}, int]")
+    return tuple[a, ...], lambda x: type(x) is tuple and all(ok1(e) for e in x), [raw] * n, (v,), f"tuple[{d}, ...]"
+
+
+def _unsup_host(rng, kind, ann, v, desc):
+    """a class of the given kind with the attribute `x: ann` (required, defaulted or with a factory) among ordinary ones"""
+    name = f"Us{next(_uid)}"
+    mode = rng.choice(["required", "required", "default", "factory"]) if kind != "td" else rng.choice(["required", "notrequired"])
+    if desc.startswith("final") and kind not in ("attrs", "dc"):
+        kind = "attrs"
+    others = [("n", int, 0)] + ([("s", str, "d")] if rng.random() < 0.5 else [])
+    if kind == "attrs":
+        kw = {"type": ann}
+        if mode == "default":
+            kw["default"] = v
+        elif mode == "factory":
+            kw["factory"] = lambda v=v: v
+        if rng.random() < 0.2:
+            kw["kw_only"] = True
+        items = [("x", attrs.field(**kw))] + [(n, attrs.field(type=t, default=d)) for n, t, d in others]
+        if mode == "required" and rng.random() < 0.5:
+            items.append(("m", attrs.field(type=int)))
+        rng.shuffle(items)
+        items.sort(key=lambda kv: (kv[1]._default is not attrs.NOTHING) and not kv[1].kw_only)
+        cl = attrs.make_class(name, dict(items), slots=rng.random() < 0.5, frozen=rng.random() < 0.3)
+    elif kind == "dc":
+        fx = ("x", ann) if mode == "required" else (
+            "x", ann, dataclasses.field(default=v) if (mode == "default" and v.__class__.__hash__ is not None)
+            else dataclasses.field(default_factory=lambda v=v: v))
+        fl = [fx] + [(n, t, dataclasses.field(default=d)) for n, t, d in others]
+        fl.sort(key=lambda f: len(f) == 3)
+        cl = dataclasses.make_dataclass(name, fl)
+    elif kind == "nt":
+        ns = {"A": ann, "V": v, "NamedTuple": NamedTuple}
+        src = f"class {name}(NamedTuple):\n    n: int\n    x: A" + (" = V" if mode != "required" else "") + "\n"
+        exec(compile(src, f"<ext {name}>", "exec", dont_inherit=True), ns)
+        cl = ns[name]
+    else:
+        from typing import NotRequired, TypedDict
+        cl = TypedDict(name, {"n": int, "x": ann if mode == "required" else NotRequired[ann]})
+    return cl, kind, mode
+
+
+def run_c02_unsupported(chk, n_cases):
+    """Types with an UNSUPPORTED component (a class cattrs has no structure hook for -- date, datetime, Decimal, Fraction,
+    UUID, complex, a plain user class -- or a union it cannot disambiguate, `Union[int, str]`) at a typed position: as the
+    type of an attribute / NamedTuple field / TypedDict key without any attrs converter, bare or inside containers /
+    Optional / Final, the class itself nested in another class or a list.  No hook, fallback or converter is registered.
+    Oracle (statement of C02): structure either raises or returns a value that conforms at every depth -- at the
+    unsupported position only a genuine instance conforms (it can only come from the attribute's default), never the raw
+    payload component.  Implementation-only; all converter classes / modes / forbid_extra_keys / prefer_attrib_converters."""
+    import cattrs
+    rng = chk.rng
+    names = sorted(_unsup_table())
+    for _ in range(n_cases):
+        leaf = rng.choice(names)
+        ann, ok, raw, v, desc = _unsup_shape(rng, leaf, rng.randint(0, 2))
+        kind = rng.choice(["attrs", "attrs", "dc", "dc", "nt", "td", "top"])
+        if kind in ("attrs", "dc") and rng.random() < 0.15:
+            ann, desc = typing.Final[ann], f"final[{desc}]"      # (outermost only; understood by the generated hooks)
+        if kind == "top":
+            T, conf, base, hd = ann, ok, raw, desc
+            mode = "-"
+        else:
+            cl, kind, mode = _unsup_host(rng, kind, ann, v, desc)
+            if kind == "nt":
+                conf = lambda r, cl=cl: type(r) is cl and len(r) == 2 and type(r[0]) is int and ok(r[1])   # noqa: E731
+                base = [1, raw]
+            elif kind == "td":
+                conf = lambda r: type(r) is dict and type(r.get("n")) is int and ("x" not in r or ok(r["x"])) and (  # noqa: E731
+                    "x" in r or mode != "required")
+                base = {"n": 1, "x": raw}
+            else:
+                conf = lambda r, cl=cl: type(r) is cl and ok(r.x) and type(r.n) is int   # noqa: E731
+                base = {"x": raw, "n": 1, "m": 2, "s": "t"}
+                base = {k: b for k, b in base.items() if hasattr(cl, "__dataclass_fields__") and k in cl.__dataclass_fields__
+                        or attrs.has(cl) and k in attrs.fields_dict(cl)}
+            T, hd = cl, f"{kind} class with x: {desc} ({mode})"
+        nest = rng.choice(["-", "-", "field", "list", "opt-field"]) if kind in ("attrs", "dc") else "-"
+        if nest != "-":
+            inner_T, inner_conf, inner_base = T, conf, base
+            W = attrs.make_class(f"UsW{next(_uid)}", {"inner": attrs.field(
+                type={"field": inner_T, "list": list[inner_T], "opt-field": Optional[inner_T]}[nest]), "k": attrs.field(type=int, default=0)})
+            T = W
+            conf = (lambda r, W=W: type(r) is W and type(r.k) is int and (
+                all(inner_conf(e) for e in r.inner) and type(r.inner) is list if nest == "list"
+                else (r.inner is None and nest == "opt-field") or inner_conf(r.inner)))
+            base = {"inner": [inner_base] if nest == "list" else inner_base, "k": 1}
+            hd = f"wrapper({nest}) of " + hd
+        payloads = [("plausible", base)]
+        if isinstance(base, dict):
+            payloads.append(("junk-leaf", mutate_leaf(rng, base)))
+            payloads.append(("mutated", mutate(rng, base)))
+            if "x" in base:
+                payloads.append(("x-missing", {k: b for k, b in base.items() if k != "x"}))
+        else:
+            payloads.append(("mutated", mutate(rng, base)))
+        for ccls in (cattrs.Converter, cattrs.BaseConverter):
+            if ccls is cattrs.BaseConverter and (kind in ("nt", "td") or "final" in desc or "odict" in desc):
+                continue        # outside a BaseConverter's support (NamedTuple / TypedDict / Final; OrderedDict -> plain dict)
+            for dv in (True, False):
+                kw = {"detailed_validation": dv, "prefer_attrib_converters": rng.random() < 0.3}
+                if ccls is cattrs.Converter and rng.random() < 0.3:
+                    kw["forbid_extra_keys"] = True
+                conv = ccls(**kw)
+                for pk, p in payloads:
+                    r = _try(lambda: conv.structure(p, T))
+                    chk.count("ext:unsup" + hd + ccls.__name__ + str(sorted(kw.items())) + repr(p)[:200], sample=None)
+                    chk.note("unsupported-stream:" + leaf, "unsupported-stream:host:" + kind + ":" + mode,
+                             "unsupported-stream:outcome:" + r[0], "unsupported-stream:nest:" + nest)
+                    if r[0] == "ok" and not conf(r[1]):
+                        chk.violation(
+                            f"C02 oracle (unsupported-type stream): {ccls.__name__}({', '.join(f'{a}={b}' for a, b in sorted(kw.items()))})"
+                            f".structure({p!r:.160}, <{hd}>) returned the non-conforming {r[1]!r:.200} (no structure hook exists for the "
+                            "unsupported component of `x`: only a genuine instance conforms there, a raw payload component has to make the call raise)",
+                            {"ext": True, "stream": "unsupported", "type": hd, "payload": repr(p)[:300], "converter": ccls.__name__,
+                             "options": repr(sorted(kw.items())), "got": repr(r[1])[:300]})
+
+
+# ------------------------------------------------------------------------------------------------ C04: histories
+# ("otherwise identical converter": the same sequence of registrations and uses applied to both -- the modes must agree
+# after EVERY step, not only on a freshly configured converter)
+
+class _NewResult:
+    """what the late-registered hooks return: recognisably not what the default hook of the member builds"""
+
+    def __init__(self, tag, raw):
+        self.tag, self.raw = tag, raw
+
+    def __eq__(self, other):
+        return type(other) is _NewResult and (other.tag, other.raw) == (self.tag, self.raw)
+
+    def __hash__(self):
+        return hash((self.tag, self.raw))
+
+    def __repr__(self):
+        return f"<new-hook {self.tag}: {self.raw}>"
+
+
+def _hist_members(rng):
+    """member types whose hook a later registration may change: (description, annotation, payloads, has classmethod)"""
+    import enum
+    u = next(_uid)
+    A = attrs.make_class(f"HmA{u}", {"a": attrs.field(type=int), "b": attrs.field(type=str, default="d")}, slots=rng.random() < 0.5)
+    A._verif_from = classmethod(lambda cls, data: cls(int(data["a"]) * 100))
+    D = dataclasses.make_dataclass(f"HmD{u}", [("a", int), ("c", list[int], dataclasses.field(default_factory=list))])
+    D._verif_from = classmethod(lambda cls, data: cls(-int(data["a"])))
+    from typing import TypedDict
+    TD = TypedDict(f"HmT{u}", {"a": int})
+    NT = NamedTuple(f"HmN{u}", [("a", int), ("s", str)])
+    E = enum.Enum(f"HmE{u}", {"P": "p", "Q": "q"})
+    cls_p = [{"a": 1}, {"a": "5"}, {"a": "x"}, {}, {"a": 2, "b": "z", "c": [1]}, None, 3]
+    return [
+        ("attrs-class", A, cls_p, True), ("dataclass", D, cls_p, True), ("typeddict", TD, cls_p, False),
+        ("namedtuple", NT, [[1, "s"], ["2", 3], [1], "ab", None], False),
+        ("optional-int", Optional[int], [1, None, "7", "x", [1]], False), ("list-int", list[int], [[1], ["2"], "ab", [None], 5], False),
+        ("newtype-int", typing.NewType(f"HmNT{u}", int), [1, "3", "x", None], False),
+        ("literal", Literal["p", "q"], ["p", "r", 1], False), ("enum", E, ["p", "r", None], False),
+        ("int", int, [1, "2", "x", None], False), ("union-of-classes", Union[A, D], cls_p, False),
+        ("optional-class", Optional[A], cls_p, False), ("dict-str-int", dict[str, int], [{"k": 1}, {"k": "2"}, {"k": "x"}, [], None], False),
+    ]
+
+
+def _hist_containers(rng, M):
+    """types with M at a typed position: (description, annotation, payload-of-member -> payload)"""
+    import collections
+    u = next(_uid)
+    H = attrs.make_class(f"HcA{u}", {"m": attrs.field(type=M), "n": attrs.field(type=int, default=0)})
+    HT = attrs.make_class(f"HcAT{u}", {"t": attrs.field(type=tuple[M, int])})
+    HD = dataclasses.make_dataclass(f"HcD{u}", [("m", M)])
+    from typing import NotRequired, TypedDict
+    TD = TypedDict(f"HcT{u}", {"m": M, "o": NotRequired[M]})
+    TDo = TypedDict(f"HcTo{u}", {"o": NotRequired[M], "k": int})
+    TDf = TypedDict(f"HcTf{u}", {"o": list[M]}, total=False)
+    ns = {"M": M, "NamedTuple": NamedTuple}
+    exec(compile(f"class HcN{u}(NamedTuple):\n    m: M\n    k: int = 0\n", "<hist>", "exec", dont_inherit=True), ns)
+    NT = ns[f"HcN{u}"]
+    return [
+        ("itself", M, lambda p: p), ("tuple[M, int]", tuple[M, int], lambda p: [p, 1]), ("tuple[int, M]", tuple[int, M], lambda p: (2, p)),
+        ("tuple[M, M]", tuple[M, M], lambda p: [p, p]), ("NamedTuple(m: M, k: int = 0)", NT, lambda p: [p, 3]),
+        ("list[M]", list[M], lambda p: [p, p]), ("tuple[M, ...]", tuple[M, ...], lambda p: [p]),
+        ("dict[str, M]", dict[str, M], lambda p: {"k": p}), ("Optional[tuple[M, int]]", Optional[tuple[M, int]], lambda p: [p, 1]),
+        ("deque[M]", collections.deque[M], lambda p: [p]), ("attrs class(m: M)", H, lambda p: {"m": p, "n": 1}),
+        ("attrs class(t: tuple[M, int])", HT, lambda p: {"t": [p, 1]}), ("dataclass(m: M)", HD, lambda p: {"m": p}),
+        ("TypedDict(m: M, o: NotRequired[M])", TD, lambda p: {"m": p, "o": p}),
+        ("list[tuple[M, int]]", list[tuple[M, int]], lambda p: [[p, 1], [p, 2]]),
+        ("TypedDict(o: NotRequired[M], k: int)", TDo, lambda p: {"o": p, "k": 1}),
+        ("TypedDict(total=False; o: list[M])", TDf, lambda p: {"o": [p]}),
+        ("dict[str, NamedTuple(m: M)]", dict[str, NT], lambda p: {"k": [p]}),
+    ]
+
+
+def _hist_registration(rng, mdesc, M, has_cm):
+    """-> (description, apply(converter)): ONE way of changing the hook of M after the converter has been used"""
+    behaviour = rng.choice(["accept-all", "reject-all", "reject-some"])
+    # the exception class a rejecting hook raises: also the ones hook templates use for their own control flow
+    exc = rng.choice([ValueError, KeyError, KeyError, IndexError, AttributeError, TypeError, LookupError, StopIteration, RuntimeError])
+    if behaviour != "accept-all":
+        behaviour += ":" + exc.__name__
+
+    def new_hook(v, t=None):
+        if behaviour.startswith("reject-all") or (behaviour.startswith("reject-some") and not isinstance(v, (dict, int))):
+            raise exc("late-registered hook rejects")
+        return _NewResult(behaviour, repr(v))
+
+    def is_m(t):
+        return t is M or (t == M and type(t) is type(M))
+
+    apis = ["hook", "hook_func", "factory", "factory-decorator", "factory-extended", "hook_func-then-factory"]
+    if has_cm:
+        apis += ["use_class_methods", "use_class_methods"]
+    api = rng.choice(apis)
+
+    def apply(conv):
+        if api == "hook":
+            conv.register_structure_hook(M, new_hook)
+        elif api == "hook_func":
+            conv.register_structure_hook_func(is_m, new_hook)
+        elif api == "factory":
+            conv.register_structure_hook_factory(is_m, lambda t: new_hook)
+        elif api == "factory-decorator":
+            @conv.register_structure_hook_factory(is_m)
+            def _fac(t):
+                return new_hook
+        elif api == "factory-extended":
+            conv.register_structure_hook_factory(is_m, lambda t, c: new_hook)
+        elif api == "hook_func-then-factory":
+            conv.register_structure_hook_func(is_m, lambda v, t: (_ for _ in ()).throw(TypeError("shadowed")))
+            conv.register_structure_hook_factory(is_m, lambda t: new_hook)
+        else:
+            from cattrs.strategies import use_class_methods
+            use_class_methods(conv, "_verif_from")
+    return f"{api}({mdesc}; {behaviour})", apply
+
+
+def run_c04_histories(chk, n_cases):
+    """Twin converters (detailed_validation True / False, same class, same options) driven through the SAME history of
+    uses and registrations: structure with 1-2 types that hold a member type M at a typed position (heterogeneous tuples,
+    NamedTuples, lists, mappings, Optional, attributes, TypedDict keys, M itself), THEN a registration that changes M's hook
+    through one of the registration APIs (register_structure_hook, register_structure_hook_func,
+    register_structure_hook_factory in its plain / decorator / two-argument forms, the use_class_methods strategy), THEN
+    the same uses again, possibly a second registration or a copy(), and again.  Oracle (statement of C04): after every
+    step the two converters accept the same payloads with equal results, and hook creation succeeds in both or neither."""
+    import cattrs
+    rng = chk.rng
+    for _ in range(n_cases):
+        members = _hist_members(rng)
+        mdesc, M, mpayloads, has_cm = rng.choice(members)
+        conts = _hist_containers(rng, M)
+        used = rng.sample(conts, rng.randint(1, 3))
+        if rng.random() < 0.6 and not any(d.startswith(("tuple[M, int]", "NamedTuple", "tuple[int, M]")) for d, _, _ in used):
+            used.append(rng.choice(conts[1:5]))
+        steps = ["use", "register", "use"]
+        for _k in range(rng.randint(0, 2)):
+            steps += [rng.choice(["register", "copy", "register"]), "use"]
+        regs = [_hist_registration(rng, mdesc, M, has_cm) for s in steps if s == "register"]
+        for ccls in (cattrs.Converter, cattrs.BaseConverter):
+            kw = {"prefer_attrib_converters": True} if rng.random() < 0.2 else {}
+            if ccls is cattrs.Converter and rng.random() < 0.25:
+                kw["forbid_extra_keys"] = True
+            cd, cf = ccls(detailed_validation=True, **kw), ccls(detailed_validation=False, **kw)
+            history, ri = [], 0
+            bad = None
+            for s in steps:
+                if s == "register":
+                    rdesc, apply = regs[ri]
+                    ri += 1
+                    ed, ef = _try(lambda: apply(cd)), _try(lambda: apply(cf))
+                    history.append(rdesc + ("" if ed[0] == "ok" else f" -> raised {type(ed[1]).__name__}"))
+                    chk.note("history-stream:register:" + rdesc.split("(")[0])
+                    if ed[0] != ef[0]:
+                        bad = f"registration {rdesc}: detailed -> {ed!r:.100}, fast -> {ef!r:.100}"
+                elif s == "copy":
+                    cd, cf = cd.copy(), cf.copy()
+                    history.append("copy()")
+                    chk.note("history-stream:copy")
+                else:
+                    for cdesc, T, wrap in used:
+                        hd, hf = _try(lambda: cd.get_structure_hook(T)), _try(lambda: cf.get_structure_hook(T))
+                        if hd[0] != hf[0] and bad is None:
+                            bad = f"hook creation for {cdesc} with M = {mdesc}: detailed -> {hd!r:.100}, fast -> {hf!r:.100}"
+                        for mp in mpayloads:
+                            p = wrap(mp)
+                            rd, rf = _try(lambda: cd.structure(p, T)), _try(lambda: cf.structure(p, T))
+                            chk.count(f"ext:hist{ccls.__name__}{mdesc}{cdesc}{history}{p!r}", sample=None)
+                            chk.note("history-stream:use:" + ("before-registration" if ri == 0 else "after-registration"),
+                                     "history-stream:container:" + cdesc, "history-stream:outcome:" + rd[0] + "/" + rf[0])
+                            od, of = _outcome(rd), _outcome(rf)
+                            if (od[0] != of[0] or (od[0] == "ok" and not same(od[1], of[1]))) and bad is None:
+                                bad = (f"structure({p!r:.120}, {cdesc}) with M = {mdesc}: detailed -> {rd!r:.140}, fast -> {rf!r:.140}")
+                    history.append("use " + ", ".join(d for d, _, _ in used))
+                if bad is not None:
+                    break
+            if bad is not None:
+                chk.violation(f"C04 oracle (history stream): {ccls.__name__}({', '.join(f'{a}={b}' for a, b in sorted(kw.items()))}) after the history "
+                              f"[{'; '.join(history)}]: {bad}",
+                              {"ext": True, "stream": "histories", "converter": ccls.__name__, "options": repr(sorted(kw.items())),
+                               "member": mdesc, "history": history, "what": bad})
